@@ -1,11 +1,12 @@
 #![feature(allocator_api)]
 #![allow(unused_imports, dead_code, unused_variables, unused_mut, unreachable_code, unused_parens)]
 // Unit `dispatch` (C15, C04; feature async): the body of the writer thread of start_async_fs_writer
-// (src/writers/file_log_writer/state.rs): the statements from `match message.as_ref()` to the pooling `if` are copied
+// (src/writers/file_log_writer/state.rs): the block of the arm `Ok(mut message) => {..}` of the thread loop's `match receiver.recv()` is copied, braces included,
 // into the body of the function `async_dispatch` below, whose parameters are the variables the closure captures.
 use vstd::prelude::*;
 verus! {
 //@ include prelude/types.rs
+//@ include prelude/sync.rs
 //@ include prelude/combinators.rs
 
 #[verifier::external_type_specification]
@@ -81,8 +82,10 @@ pub mod state {
     /// The writer thread's reaction to one message. Returns true iff the thread stops (the `break`).
     #[verifier::exec_allows_no_decreases_clause]
     #[verifier::loop_isolation(false)]
-    pub(crate) fn async_dispatch(mut message: Vec<u8>, state: &mut State, message_capa: usize, a_pool: &Arc<ArrayQueue<Vec<u8>>>) -> (stopped: bool)
+    pub(crate) fn async_dispatch(mut message: Vec<u8>, am_state: &Arc<std::sync::Mutex<State>>, message_capa: usize, a_pool: &Arc<ArrayQueue<Vec<u8>>>) -> (stopped: bool)
         requires
+            // A10: the state mutex is not poisoned (the thread panics otherwise: `lock().unwrap()`)
+            !mutex_poisoned(&**am_state),
             // C15: a data message is written as it is, and only a data message; control messages only flush / shut down
             forall|b: Seq<u8>| #[trigger] wb_ok(b) <==> (b == message@ && !is_flush(message@) && !is_shutdown(message@)),
             flush_ok() <==> is_flush(message@),
@@ -101,8 +104,7 @@ pub mod state {
             invariant message@ == m0,
         {
     //@ span src/writers/file_log_writer/state.rs fn start_async_fs_writer
-    //@   from match message.as_ref()
-    //@   upto if message.capacity() <= message_capa
+    //@   block Ok(mut message) =>
     //@   rename async_dispatch
             return false;
         }
